@@ -17,7 +17,8 @@ import (
 )
 
 // {"timeout": Config.Timeout in ms (0: no timeout handler budget), "calls": [[class, status, route], ...]}
-// class 0 WriteHeader(status) | 1 Write without WriteHeader | 2 nothing written | 4 panic(string) | 5 panic(error);
+// class 0 WriteHeader(status) | 1 Write without WriteHeader | 2 nothing written | 4 panic(string) | 5 panic(error) |
+// 7 panic(nil) | 8 panic(http.ErrAbortHandler) | 9 a runtime error panic;
 // routes 0 GET /verif/a/get | 1 POST /verif/a/get | 2 GET /verif/b/get (each bound by the engine with its own
 // default chain, hence its own breaker).
 type verifC01Case struct {
@@ -51,6 +52,13 @@ func TestVerifDriverC01(t *testing.T) {
 				panic("verif panic")
 			case 5:
 				panic(errors.New("verif panic error"))
+			case 7:
+				panic(nil) // recover() yields nil for it (go.mod: go 1.19): RecoverHandler does not see a panic
+			case 8:
+				panic(http.ErrAbortHandler) // the sentinel a ReverseProxy raises
+			case 9:
+				var m map[string]int
+				m["verif"] = 1 // runtime error
 			}
 		}
 		ng := newEngine(Config{Timeout: c.Timeout})
